@@ -703,6 +703,15 @@ def gen_c14(tier, seed):
             bodies.append(("flip", f[:i] + bytes([rng.choice(structural)]) + f[i + 1:]))
             bodies.append(("flip", f[:i] + bytes([f[i] ^ (1 << rng.randrange(8))]) + f[i + 1:]))
         bodies.append(("valid", f))
+    # quoted strings that end in every kind of complete, partial and unknown escape: the two passes
+    # of conf_parse_string (size, then copy) must agree on where the string ends
+    tails = [b"\\", b"\\x", b"\\x7", b"\\x7g", b"\\xg", b"\\x41", b"\\x4", b"\\xff", b"\\0", b"\\1", b"\\12", b"\\123",
+             b"\\1234", b"\\8", b"\\n", b"\\q", b"\\\"", b"\\\\", b"\\x\\x7", b"\\x7\\x7", b"\\\n", b"\\x\n7"]
+    for t in tails:
+        for pre in (b"", b"w", b"welcome to the net"):
+            for after in (b"", b"\n", b";\nb \"later\";\n", b";\n" + b"// filler line\n" * 40 + b"c \"far\";\n", b" }"):
+                bodies.append(("escape-edge", b"a \"" + pre + t + b"\"" + after))
+                bodies.append(("escape-edge", b"a (\"" + pre + t + b"\", \"" + t + b"\")" + after))
     for i in range(400 if tier == "quick" else 20000):
         n = rng.choice([1, 2, 3, 8, 20, 60])
         if rng.random() < 0.5:
